@@ -146,6 +146,26 @@ def guard_pol(e: Effect, needle: str) -> Optional[bool]:
 
 
 # ----------------------------------------------------------------------------- decoder DATA branch
+def boundary_absent(pa) -> bool:
+    """Do the facts of the path say that no '--boundary' text is in the buffer? Any spelling of the absence test:
+    buffer.find(x) == -1 | < 0 | not (!= -1) | not (>= 0) ;  x not in buffer | not (x in buffer)"""
+    for f, t in pa.facts:
+        if f[0] != "cmp":
+            continue
+        op, a, b = f[1], f[2], f[3]
+        if a[0] == "call" and a[1][0] == "attr" and a[1][2] in ("find", "rfind") and "boundary" in repr(a[2]):
+            if b == ("const", -1) and ((op == "Eq" and t) or (op == "NotEq" and not t)):
+                return True
+            if b == ("const", 0) and ((op == "Lt" and t) or (op == "GtE" and not t)):
+                return True
+            if b == ("const", -1) and ((op == "LtE" and t) or (op == "Gt" and not t)):
+                return True
+        if op in ("In", "NotIn") and "boundary" in repr(a) and "buffer" in repr(b):
+            if (op == "NotIn" and t) or (op == "In" and not t):
+                return True
+    return False
+
+
 def data_branch_emissions(p: Program):
     """For every path of MultipartDecoder.next_event in the DATA state that emits a Data event:
     (path, emitted-prefix bound, deleted-prefix bound, more_data truth, no_complete_boundary_buffered, node, fn, collector)."""
@@ -190,7 +210,7 @@ def data_branch_emissions(p: Program):
             dk = dels[0].a[2]
             del_bound = dk[2] if dk[0] == "slice" and dk[1] == NONE else None
         more = truth_of(mv, pa) if mv is not None else None
-        no_boundary = any(t and f[0] == "cmp" and f[1] == "Eq" and f[3] == ("const", -1) and f[2][0] == "call" and f[2][1][0] == "attr" and f[2][1][2] == "find" for f, t in pa.facts)
+        no_boundary = boundary_absent(pa)
         node, fnn = col.nodes[datas[0].tag]
         out.append((pa, emit_bound, del_bound, more, no_boundary, node, ne, bool(dels)))
     return out, len(paths)
@@ -358,6 +378,53 @@ def parseparam_quote_parity(p: Program, rep=None):
 
 
 # ----------------------------------------------------------------------------- the "pending partial delimiter" idiom
+def decoder_patterns(p: Program, B: bytes):
+    """{attr: (pattern bytes, flags, assignment node)} for every `self.<attr> = <compiled regex>` of MultipartDecoder.__init__,
+    folded with the boundary standing for `B`. The regex may be written as re.compile(...) in place or come from a helper
+    function that returns one; the straight-line locals of __init__ (delimiter = b"--" + boundary, lists of prefixes ...)
+    are folded on the way. Patterns the folder cannot evaluate are reported as (None, None, node)."""
+    from ..fold import CompiledRe, Folder, NotConst
+
+    F = Folder(p)
+    mp = p.module("baize.multipart")
+    init = _decoder(p).methods.get("__init__")
+    if init is None:
+        raise AnalysisError("MultipartDecoder.__init__ vanished")
+    env = {init.params[1] if len(init.params) > 1 else "boundary": B}
+    out = {}
+    for st in init.node.body:
+        tgt = val = None
+        if isinstance(st, ast.Assign) and len(st.targets) == 1:
+            tgt, val = st.targets[0], st.value
+        elif isinstance(st, ast.AnnAssign) and st.value is not None:
+            tgt, val = st.target, st.value
+        if tgt is None:
+            continue
+        if isinstance(tgt, ast.Name):
+            try:
+                env[tgt.id] = F.fold(mp, val, env)
+            except NotConst:
+                env.pop(tgt.id, None)
+        elif isinstance(tgt, ast.Attribute) and isinstance(tgt.value, ast.Name) and tgt.value.id == "self" and isinstance(val, ast.Call):
+            r = p.resolve_call(init, val)
+            is_re = r == ("ext", "re.compile")
+            if not is_re and not isinstance(r, FuncInfo):
+                continue
+            try:
+                v = F.fold(mp, val, env)
+            except NotConst as e:
+                if is_re or _returns_compiled(p, r):
+                    out[tgt.attr] = (None, str(e), st)
+                continue
+            if isinstance(v, CompiledRe):
+                out[tgt.attr] = (v.pattern, v.flags, st)
+    return out
+
+
+def _returns_compiled(p: Program, fn) -> bool:
+    return isinstance(fn, FuncInfo) and any(isinstance(n, ast.Return) and isinstance(n.value, ast.Call) and p.resolve_call(fn, n.value) == ("ext", "re.compile") for n in ast.walk(fn.node))
+
+
 def pending_idiom(p: Program):
     """The decoder may hold back `self.<attr>.search(self.buffer).start()` where <attr> is a regex anchored at the end of the
     buffer that matches 'a line break followed by what may still grow into a delimiter'. Decided on automata, with the
@@ -376,41 +443,22 @@ def pending_idiom(p: Program):
     LB = b"(?:\r\n|\n|\r)"
     H = b"[ \t\x0b\x0c]"
     REF_BOUNDARY = LB + b"--" + B + b"(?:--" + H + b"*" + LB + b"?|" + H + b"*" + LB + b")"
-    F = Folder(p)
-    mp = p.module("baize.multipart")
-    dec = _decoder(p)
-    init = dec.methods.get("__init__")
-    if init is None:
-        raise AnalysisError("MultipartDecoder.__init__ vanished")
-    env = {"boundary": B}
     out = {}
-    for st in init.node.body:
-        if isinstance(st, ast.Assign) and len(st.targets) == 1:
-            t = st.targets[0]
-            if isinstance(t, ast.Name):
-                try:
-                    env[t.id] = F.fold(mp, st.value, env)
-                except NotConst:
-                    pass
-            elif isinstance(t, ast.Attribute) and isinstance(st.value, ast.Call) and p.resolve_call(init, st.value) == ("ext", "re.compile") and st.value.args:
-                try:
-                    pat = F.fold(mp, st.value.args[0], env)
-                except NotConst:
-                    continue
-                if not isinstance(pat, bytes) or not pat.endswith(b"\\Z"):
-                    continue
-                body = pat[:-2]
-                try:
-                    al = rx.alphabet_for([rx.Regex(REF_BOUNDARY), rx.Regex(body)])
-                    db, dp = rx.dfa_of(REF_BOUNDARY, al), rx.dfa_of(body, al)
-                    need = rx.intersect(rx.intersect(rx.prefix_closure(db), rx.complement(rx.then_anything(db))), rx.dfa_of(b"(?s).+", al))
-                    w = rx.difference_witness(need, dp)
-                    contains = rx.dfa_of(b"(?s).*" + LB + b"--" + B + b".*", al)
-                    k = rx.longest_word(rx.intersect(dp, rx.complement(contains)))
-                    # every match starts with a line break
-                    fs = dp.first_set()
-                    starts_lb = not dp.accepts_empty() and fs <= {10, 13}
-                except rx.Unsupported:
-                    continue
-                out[t.attr] = (w is None and starts_lb, w, k, pat)
+    for attr, (pat, _flags, _node) in decoder_patterns(p, B).items():
+        if not isinstance(pat, bytes) or not pat.endswith(b"\\Z"):
+            continue
+        body = pat[:-2]
+        try:
+            al = rx.alphabet_for([rx.Regex(REF_BOUNDARY), rx.Regex(body)])
+            db, dp = rx.dfa_of(REF_BOUNDARY, al), rx.dfa_of(body, al)
+            need = rx.intersect(rx.intersect(rx.prefix_closure(db), rx.complement(rx.then_anything(db))), rx.dfa_of(b"(?s).+", al))
+            w = rx.difference_witness(need, dp)
+            contains = rx.dfa_of(b"(?s).*" + LB + b"--" + B + b".*", al)
+            k = rx.longest_word(rx.intersect(dp, rx.complement(contains)))
+            # every match starts with a line break
+            fs = dp.first_set()
+            starts_lb = not dp.accepts_empty() and fs <= {10, 13}
+        except rx.Unsupported:
+            continue
+        out[attr] = (w is None and starts_lb, w, k, pat)
     return out
